@@ -60,7 +60,8 @@ class C09(vlib.Check):
     gen_items = ["fprint_fold"]
     rule = ("pairs and triples built from a seeded fingerprint and its near variants (equal, subset, superset, level, bits, "
             "one count, other kind), compared with ==/!= in both directions; copies (from_fingerprint, pickle, conversion "
-            "to another kind and back) mutated through every public setter. Non-trivial: non-empty operands; distinct by case.")
+            "to another kind and back) mutated through every public setter; half of the originals are folded (linked) before being "
+            "copied and the copy's folded child is then changed. Non-trivial: non-empty operands; distinct by case.")
     trusted_base = ["pickle (compared on every run)"]
 
     def gen_cases(self):
@@ -81,7 +82,9 @@ class C09(vlib.Check):
             yield {"t": "triple", "fps": trip}
             self.count("copy")
             yield {"t": "copy", "fp": f, "how": rng.choice(["from_fingerprint", "pickle", "deepcopy"]),
-                   "via": rng.choice(KINDS), "mut": rng.choice(["indices", "counts", "level", "bits", "set_prop", "name", "fold"])}
+                   "via": rng.choice(KINDS), "mut": rng.choice(["indices", "counts", "level", "bits", "set_prop", "name", "fold"]),
+                   # fold the original (linked: the folded child is cached on it) *before* it is copied
+                   "prefold": rng.random() < 0.5}
 
     # ------------------------------------------------------------------
     def impl(self, case):
@@ -173,10 +176,54 @@ class C09(vlib.Check):
             f = make_fp(spec)
             f.set_prop("tag", 1)
             f.name = "orig"
+            half = spec["bits"] // 2 if spec["bits"] % 2 == 0 and spec["bits"] >= 2 else None
+            ff = f.fold(half) if case.get("prefold") and half else None
             try:
                 c = self._copy(f, case)
             except Exception as e:  # noqa: BLE001
                 return {"key": "copy-raises:%s:%s" % (case["how"], type(e).__name__), "what": "copy raised %r" % e}
+            if ff is not None:
+                # the cached folded children belong to the fold cache, which is mutable state: the copy's must be its own
+                kinds_chain = [spec["kind"]] + ([case["via"], spec["kind"]] if case["via"] != spec["kind"] else [])
+                objs = [("copy (%s)" % case["how"], c)]
+                try:
+                    x = f
+                    for k2 in kinds_chain[1:]:
+                        x = CLS[k2].from_fingerprint(x)
+                    if x is not f:
+                        objs.append(("conversion %s" % "->".join(kinds_chain), x))
+                except Exception:  # noqa: BLE001
+                    pass
+                for label, o in objs:
+                    before_child = (dump_fp(ff), ff.name, dict(ff.props))
+                    try:
+                        cf = o.fold(half)
+                    except Exception as e:  # noqa: BLE001
+                        return {"key": "fold-of-copy-raises:" + type(e).__name__, "what": "folding the %s raised %r" % (label, e)}
+                    if cf is ff:
+                        return {"key": "copy-shares-state:%s:folded-child" % case["how"],
+                                "what": "the %s of a fingerprint folded before copying returns the original's cached folded fingerprint object" % label}
+                    try:
+                        if cf.unfold() is f:
+                            return {"key": "copy-shares-state:%s:unfold-link" % case["how"],
+                                    "what": "the folded fingerprint of the %s unfolds to the original, not to the copy" % label}
+                    except Exception:  # noqa: BLE001
+                        pass
+                    cf.name = "child-of-copy"
+                    cf.level = 63
+                    cf.set_prop("tag", "changed")
+                    if (dump_fp(ff), ff.name, dict(ff.props)) != before_child:
+                        return {"key": "copy-shares-state:%s:folded-child" % case["how"],
+                                "what": "changing the folded fingerprint of the %s changed the original's folded fingerprint" % label}
+                    if spec["kind"] != "bit":
+                        # re-folding a count fingerprint with another counts_method rewrites the cached child in place
+                        try:
+                            o.fold(half, counts_method=max)
+                        except Exception:  # noqa: BLE001
+                            pass
+                        if dump_fp(f.fold(half)) != before_child[0] and dump_fp(ff) != before_child[0]:
+                            return {"key": "copy-shares-state:%s:folded-child" % case["how"],
+                                    "what": "re-folding the %s with another counts_method changed the original's cached fold" % label}
             try:
                 if not (c == f) or (c != f):
                     return {"key": "copy-not-equal:" + case["how"], "what": "copy does not compare equal to the original"}
